@@ -227,6 +227,8 @@ class C13(Check):
 
     def execute(self, plan, forced=None):
         out = Outcome()
+        for name in core.reset_lark_process_state():
+            out.count('probe:process-state-left-by-an-earlier-run:' + name)
         cfg = plan['config']
         p = self.lark_for(cfg, plan.get('lalr_salt', 0))
         e = W.ENTRIES[cfg.partition('/')[0]]
